@@ -19,6 +19,10 @@ CLAIMED = {
         technique="Lean 4 effect theorems on an executable spec + step-by-step refinement check",
         design="§6 C05"),
 }
+import glob
+for f in sorted(glob.glob(os.path.join(V, "harness", "props", "*.manifest.json"))):
+    frag = json.load(open(f))
+    CLAIMED[os.path.basename(f).split(".")[0].upper()] = frag
 PENDING = "check not built yet in this revision of /verif (work in progress; see DESIGN.md §12)"
 checks = []
 for p in ALL:
@@ -26,7 +30,7 @@ for p in ALL:
         c = CLAIMED[p]
         checks.append(dict(property_id=p, quick_cmd=f"./check {p} --tier quick", thorough_cmd=f"./check {p} --tier thorough",
                            evidence_file=f"evidence/{p}.json", replay_cmd_template=f"./check {p} --replay {{path}}",
-                           engine="lean4-model", level_claimed=dict(category="proof", text=c["text"], design_ref=c["design"]),
+                           engine="lean4-model", level_claimed=dict(category="proof", text=c["text"], design_ref=c.get("design", "")),
                            level_note=c["note"], technique=c["technique"]))
 m = dict(version=1,
          setup_cmd="cd lean && lake build",
